@@ -347,9 +347,11 @@ let show_log log =
       | LStateChanged KHalfOpen -> Printf.sprintf "%d:S2" i
       | LCountUpdated (s, f) -> Printf.sprintf "%d:C%s:%s" i (Zconv.string_of_z s) (Zconv.string_of_z f)
       | LRejected -> Printf.sprintf "%d:R" i) log)
+(* the P line as unbounded integers (ticker readings may lie outside OCaml's 63-bit int) *)
+let pre_z : z list ref = ref []
 let breaker_comp opts window_only = {
   mach = breaker (breaker_cfg opts) (nat_of_int (opt_int opts "listeners" 1));
-  sh0 = (fun o pre -> let ticks = List.map zint pre in
+  sh0 = (fun o _ -> let ticks = !pre_z in
           if window_only then winit ticks else binit (nat_of_int (opt_int o "listeners" 1)) ticks);
   ts0 = (); parse_op = parse_bop; show_ret = show_bret;
   prefill = (fun _ _ -> []); final_prog = (fun _ _ _ -> []); final_digest = (fun _ -> "");
@@ -426,8 +428,10 @@ let () =
              match String.index_opt kv '=' with
              | Some i -> Some (String.sub kv 0 i, String.sub kv (i + 1) (String.length kv - i - 1))
              | None -> None) opts in
-         cur := Some (id, kind, opts); pre := []; threads := []
-       | "P" :: vs -> pre := List.map int_of_string vs
+         cur := Some (id, kind, opts); pre := []; pre_z := []; threads := []
+       | "P" :: vs ->
+         pre := List.map (fun v -> match int_of_string_opt v with Some i -> i | None -> 0) vs;
+         pre_z := List.map Zconv.z_of_string vs
        | "T" :: ops -> threads := !threads @ [ops]
        | ["GO"] ->
          (match !cur with
